@@ -17,6 +17,7 @@ import (
 	"verif/harness/refcodec"
 	"verif/harness/vcmp"
 	"verif/harness/zoo"
+	"verif/harness/zoo/twin"
 )
 
 type c11Outcome struct {
@@ -145,6 +146,28 @@ var c11Sensitive = [][]byte{
 
 func TestC11(t *testing.T) {
 	r := rec.For("C11")
+	// witness of a repaired defect: an instance without names that has written a struct type must not take a map
+	// or slice type of the same (unqualified) name for a typed one afterwards
+	for i, pair := range [][2]interface{}{
+		{&twin.PlainMap{A: 1}, zoo.PlainMap{"a": 1}},
+		{twin.Bag{A: 2}, zoo.Bag{int32(1), "x"}},
+		{[]interface{}{&twin.PlainMap{A: 1}, &twin.Bag{A: 3}}, &zoo.Bags{B: zoo.Bag{"y"}}},
+	} {
+		fresh, err0 := hessian.NewSerializer(nil, nil).ToBytes(pair[1])
+		s := hessian.NewSerializer(nil, nil)
+		_, err1 := s.ToBytes(pair[0])
+		used, err2 := s.ToBytes(pair[1])
+		e := hessian.NewEncoder(nil, nil)
+		e.Encode(pair[0])
+		used2, err3 := e.Encode(pair[1])
+		if err0 != nil || err1 != nil || err2 != nil || err3 != nil || !bytes.Equal(fresh, used) || !bytes.Equal(fresh, used2) {
+			directFail(t, "C11", map[string]interface{}{"case": i, "fresh": hexClip(fresh, 200), "used": hexClip(used, 200)},
+				"C11 an instance without names encodes %T after %T differently from a new one: %x / %x (Encoder %x) %v %v %v %v", pair[1], pair[0], fresh, used, used2, err0, err1, err2, err3)
+		}
+		r.Eval()
+		r.NonTrivial(av.Hash(fmt.Sprintf("same-name/%d", i)))
+		r.Label("struct type, then a map or slice type of the same unqualified name, on an instance without names")
+	}
 	cfg := zoo.DefaultCfg()
 	cfg.MaxBig, cfg.Budget, cfg.NoBigStrings = 20, 120, true
 	garbage := c14Small()
